@@ -418,6 +418,10 @@ PLANS["C05"] = {
         T("reopen", "reopen", (24, 600), ["InvReopen", "InvAudit", "InvOneTx"], backends="bolt,badger", args=["-txlog"], chunk=6),
         T("abandon", "-", (4, 40), ["InvFault", "InvFaultRest", "InvReopen", "InvNoPanic"], cmd="fault",
           args=["-mode", "abandon", "-targets", "7"], chunk=1),
+        # single failed calls followed by acknowledged writes on the same handle, then close / reopen: what a failed
+        # call left behind in memory must not reach the disk with the next write
+        T("fault-reopen", "-", (4, 40), ["InvFault", "InvFaultRest", "InvReopen", "InvNoPanic"], cmd="fault",
+          args=["-mode", "one", "-targets", "1", "-followup", "4", "-reopen", "2", "-backends", "bolt,badger"], chunk=1, seed_off=29),
         # an insert of about 11 MB (beyond badger's transaction size limit) abandoned at every 23rd store call
         T("abandon-huge", "-", (2, 8), ["InvFault", "InvFaultRest", "InvReopen", "InvNoPanic"], cmd="fault",
           args=["-mode", "abandon", "-huge", "-backends", "badger,bolt"], chunk=1, heap="8g", seed_off=41),
